@@ -294,3 +294,146 @@ Proof.
   all: unfold form_cids in Hx; cbn in Hx; rewrite ?elem_of_app in Hx;
        repeat match type of Hx with _ \/ _ => destruct Hx as [Hx|Hx] end; cid_leaf HUp HUm Hx.
 Qed.
+
+Lemma action_not_dup md D p n : pr_provs p = [n] -> action_of md D p <> ADup.
+Proof.
+  intros Hp. destruct p as [provs body next]. cbn in Hp. subst provs.
+  unfold action_of, send_on, recv_on, internal. cbn. repeat case_match; done.
+Qed.
+
+Lemma send_msg_ok D p k m :
+  proc_ok p -> action_of Async D p = ASend k m ->
+  msg_ok m /\ (forall x, x ∈ msg_cids m -> x ∈ proc_cids p).
+Proof.
+  intros ((n & a & Hprov & Hn) & Hlin). destruct p as [provs body next]. cbn in *. subst provs.
+  unfold action_of, send_on, recv_on, internal, self_name_of, msg_ok, msg_cids, proc_cids, form_cids, names_cids. cbn.
+  destruct body; cbn in *; repeat case_match; intros ?; simplify_eq; cbn; rewrite ?Hn.
+  all: split; [by eauto|].
+  all: intros x; rewrite ?elem_of_app, ?elem_of_nil; unfold name_cids; cbn; rewrite ?Hn; tauto.
+Qed.
+
+(* ------------------------------------------------------------------ the three shapes of a new configuration *)
+Lemma foldr_close_lookup cl : forall (cm : gmap cid chan_st) k st',
+  foldr (fun ch m => match m !! ch with
+                     | Some st => <[ ch := Chan (ch_buf st) true ]> m
+                     | None => m
+                     end) cm cl !! k = Some st' ->
+  exists st, cm !! k = Some st /\ ch_buf st' = ch_buf st.
+Proof.
+  induction cl as [|ch cl IH]; intros cm k st'; cbn; [eauto|].
+  destruct (_ !! ch) as [st1|] eqn:Hch; [|apply IH].
+  intros [[<- <-]|[Hne Hk]]%lookup_insert_Some; [|by apply IH].
+  apply IH in Hch as (st & Hst & Hb). eauto.
+Qed.
+
+Lemma ginv_send U c self p k st m :
+  ginv U c -> procs c !! self = Some p -> chans c !! k = Some st ->
+  msg_ok m -> (forall x, x ∈ msg_cids m -> U x) ->
+  ginv U (del_proc (put_msg c k st (Some m)) self).
+Proof.
+  intros G Hp Hk Hm HUm. constructor; cbn.
+  - intros q pr [_ Hq]%lookup_delete_Some. by apply (g_procs U c G).
+  - intros k' st' m' [[<- <-]|[_ Hk']]%lookup_insert_Some Hb; cbn in Hb; [by simplify_eq|]. by eapply (g_msgs U c G).
+  - intros k' [st' [[<- _]|[_ Hk']]%lookup_insert_Some]; apply (g_chans U c G); eauto.
+  - intros q pr n rest [_ Hq]%lookup_delete_Some. by apply (g_bound U c G).
+Qed.
+
+Lemma ginv_simple U c c1 self p p' cl o :
+  ginv U c -> procs c1 = procs c ->
+  (forall k st, chans c1 !! k = Some st -> exists st0, chans c !! k = Some st0 /\ (ch_buf st = None \/ ch_buf st = ch_buf st0)) ->
+  procs c !! self = Some p -> proc_ok p' -> (forall x, x ∈ proc_cids p' -> U x) -> (pr_next p <= pr_next p')%nat ->
+  ginv U (apply_effect c1 self p (Eff (Continue p') [] [] cl o)).
+Proof.
+  intros G Hprocs Hch Hp Hok HU Hnext. unfold apply_effect. cbn. rewrite Hprocs. constructor; cbn.
+  - intros q pr [[<- <-]|[_ Hq]]%lookup_insert_Some; [|by apply (g_procs U c G)].
+    split; [exact Hok|]. split; [by destruct (g_procs U c G self p Hp) as (_ & Hs & _)|]. intros x Hx. apply HU. exact Hx.
+  - intros k st m Hk Hb. apply foldr_close_lookup in Hk as (st1 & Hk1 & Hb1).
+    apply Hch in Hk1 as (st0 & Hk0 & [Hnone|Hsame]); [congruence|].
+    eapply (g_msgs U c G k st0 m Hk0). congruence.
+  - intros k [st Hk]. apply foldr_close_lookup in Hk as (st1 & Hk1 & _).
+    apply Hch in Hk1 as (st0 & Hk0 & _). apply (g_chans U c G). eauto.
+  - intros q pr n rest [[<- <-]|[_ Hq]]%lookup_insert_Some Hu; cbn; [|by eapply (g_bound U c G)].
+    apply (g_bound U c G self p n rest Hp) in Hu. lia.
+Qed.
+
+Lemma ginv_cut U c self n x P Q next :
+  let nc := mkName (ident x) false (pol x) (nty x) (Some (self ++ [next])) in
+  ginv U c -> procs c !! self = Some (Proc [n] (FNew x P Q) next) ->
+  ginv (fun y => U y \/ y = self ++ [next] \/ y = self ++ [(S next + 1)%nat])
+       (apply_effect c self (Proc [n] (FNew x P Q) next)
+          (Eff (Continue (set_body (Proc [n] (FNew x P Q) (S next)) (subst x nc Q))) [Spawn [nc] P] (cids_of [nc]) [] [])).
+Proof.
+  intros nc G Hp. destruct (g_procs U c G _ _ Hp) as (((n0 & a & Hpv & Hn) & Hlin) & Hself & HUp).
+  cbn in Hpv, Hlin. simplify_eq. apply andb_prop in Hlin as [HlP HlQ].
+  unfold apply_effect. cbn. constructor; cbn.
+  - intros q pr [[<- <-]|[Hne [[<- <-]|[Hne2 Hq]]%lookup_insert_Some]]%lookup_insert_Some.
+    + split_and!; [split; [by eauto|cbn; by rewrite lin_subst]|by left|].
+      intros k Hk. unfold proc_cids in Hk. cbn in Hk. apply elem_of_app in Hk as [Hk|Hk].
+      * left. apply HUp. unfold proc_cids. cbn. apply elem_of_app. by left.
+      * apply form_cids_subst in Hk as [Hk|Hk].
+        -- left. apply HUp. unfold proc_cids, form_cids in *. cbn. rewrite !flat_map_app, !elem_of_app. auto.
+        -- cbn in Hk. apply elem_of_list_singleton in Hk. auto.
+    + split_and!; [split; [by exists nc, (self ++ [next])|done]|by auto|].
+      intros k Hk. unfold proc_cids in Hk. cbn in Hk. apply elem_of_cons in Hk as [Hk|Hk].
+      * auto.
+      * left. apply HUp. unfold proc_cids, form_cids in *. cbn. rewrite !flat_map_app, !elem_of_app. auto.
+    + destruct (g_procs U c G q pr Hq) as (? & ? & ?). split_and!; [done|by left|]. intros; left; auto.
+  - intros k st m [[<- <-]|[_ Hk]]%lookup_insert_Some Hb; [done|].
+    destruct (g_msgs U c G k st m Hk Hb) as [? HUm]. split; [done|]. intros; left; auto.
+  - intros k [st [[<- _]|[_ Hk]]%lookup_insert_Some]; [by auto|]. left. apply (g_chans U c G). eauto.
+  - intros q pr m rest Hq Hu.
+    assert (forall y, (y = next \/ y = (S next + 1)%nat) -> q ++ m :: rest = self ++ [y] ->
+              (q = self /\ m = y) \/ exists rest', self = q ++ m :: rest') as Hsnoc.
+    { intros y _ Heq. apply app_cons_eq_snoc in Heq as [(-> & _ & ->)|?]; auto. }
+    apply lookup_insert_Some in Hq as [[<- <-]|[Hne Hq]]; cbn.
+    + destruct Hu as [Hu|[Hu|Hu]].
+      * apply (g_bound U c G _ _ _ _ Hp) in Hu. cbn in Hu. lia.
+      * apply app_inv_head in Hu. simplify_eq. lia.
+      * apply app_inv_head in Hu. simplify_eq. lia.
+    + apply lookup_insert_Some in Hq as [[<- <-]|[Hne2 Hq]]; cbn.
+      * exfalso. rewrite <- app_assoc in Hu. cbn in Hu. destruct Hu as [Hu|[Hu|Hu]].
+        -- apply (g_bound U c G _ _ _ _ Hp) in Hu. cbn in Hu. lia.
+        -- apply app_inv_head in Hu. done.
+        -- apply app_inv_head in Hu. done.
+      * destruct Hu as [Hu|[Hu|Hu]]; [by eapply (g_bound U c G)| |].
+        -- destruct (Hsnoc next (or_introl eq_refl) Hu) as [[-> _]|[rest' ->]]; [done|].
+           eapply (g_bound U c G q pr m rest' Hq). done.
+        -- destruct (Hsnoc _ (or_intror eq_refl) Hu) as [[-> _]|[rest' ->]]; [done|].
+           eapply (g_bound U c G q pr m rest' Hq). done.
+Qed.
+
+(* ------------------------------------------------------------------ preservation *)
+Theorem ginv_step U D F c self c' :
+  ginv U c -> tres D c -> funs_ok F -> step Async D F c (Run self) = SStep c' ->
+  exists U' : list nat -> Prop, (forall x, U x -> U' x) /\ ginv U' c'.
+Proof.
+  intros G T HF Hstep. apply step_run_async_inv in Hstep as (p & Hp & Hstep).
+  destruct (g_procs U c G self p Hp) as (Hok & Hself & HUp).
+  pose proof Hok as ((n & a & Hprov & Hn) & Hlin).
+  destruct (action_of Async D p) as [| |k m|k| |k provs|w] eqn:Hact; try done.
+  - by destruct (action_not_dup Async D p n Hprov).
+  - destruct Hstep as (e & He & ->).
+    destruct p as [provs body next]. cbn in Hprov, Hlin. subst provs.
+    destruct body; cbn in He, Hlin; try discriminate.
+    + (* cut *) simplify_eq. eexists. split; [|by apply ginv_cut]. intros y Hy. by left.
+    + (* call *)
+      destruct (call_body F f args) as [b|] eqn:Hcall; [|done]. simplify_eq. rewrite call_body_unfold in Hcall.
+      exists U. split; [done|]. unfold no_eff. eapply ginv_simple; try done; [eauto| |].
+      * split; [by eauto|]. cbn. eapply lin_unfold_call; [|done]. intros fd Hfd. by apply HF.
+      * intros x Hx. unfold proc_cids in Hx. cbn in Hx. apply HUp. unfold proc_cids. cbn.
+        apply elem_of_app in Hx as [Hx|Hx]; apply elem_of_app; [by left|right].
+        eapply form_cids_unfold_call in Hx; [done| |done]. intros fd Hfd. by apply HF.
+    + (* print *) simplify_eq. exists U. split; [done|].
+      eapply ginv_simple; [exact G|done|by eauto|exact Hp| | |done].
+      * split; [by eauto|done].
+      * intros x Hx. apply HUp. unfold proc_cids, form_cids in *. cbn in *. exact Hx.
+  - destruct Hstep as (st & Hk & Hb & ->). exists U. split; [done|].
+    destruct (send_msg_ok D p k m Hok Hact) as [Hm Hc]. eapply ginv_send; eauto.
+  - destruct Hstep as (st & Hk & Hstep). specialize (T self p k st Hp Hact Hk).
+    destruct (ch_buf st) as [m|] eqn:Hb; [|congruence].
+    destruct Hstep as (e & He & ->). destruct (g_msgs U c G k st m Hk Hb) as [Hmok HUm].
+    destruct (on_message_ok U self p m e Hok Hmok HUp HUm ltac:(intros Hr; by apply T) He)
+      as (p' & cl & -> & Hok' & HU' & Hnext).
+    exists U. split; [done|]. eapply ginv_simple; try done; [|lia].
+    intros k' st' Hk'. cbn in Hk'. apply lookup_insert_Some in Hk' as [[<- <-]|[_ Hk']]; [exists st; cbn; auto|eauto].
+Qed.
